@@ -503,6 +503,18 @@ def algebra_job(job):
     strip = lambda t: dict(verts={k: [r for r in v if r["seq"] >= 0] for k, v in t["verts"].items()},  # noqa
                            edges={k: [r for r in v if r["out"] >= 0] for k, v in t["edges"].items()})
     cases.append(dict(id=f"{job['id']}/stack_index", op="stack_index", eps=[strip(t) for t in eps_tabs], indexed=indexed, len=len(stacked)))
+    # every prefix of the episode list, down to a stack of ONE episode (and the single-episode ExperimentRecord): same law
+    for k in range(1, len(graphs)):
+        try:
+            stk = base.Graph.stack(graphs[:k])
+            idx_k = [_tables_of_graph(stk[i]) for i in range(k)]
+            cases.append(dict(id=f"{job['id']}/stack_index/first{k}", op="stack_index", eps=[strip(t) for t in eps_tabs[:k]], indexed=idx_k, len=len(stk)))
+            if recs is not None:
+                stk2 = base.ExperimentRecord(episodes=recs[:k]).to_graph()
+                idx_k2 = [_tables_of_graph(stk2[i]) for i in range(k)]
+                cases.append(dict(id=f"{job['id']}/experiment_to_graph/first{k}", op="stack_index", eps=[strip(t) for t in eps_tabs[:k]], indexed=idx_k2, len=len(stk2)))
+        except Exception as e:  # noqa  (an object that cannot be indexed / tabulated as an episode is not "the original episode")
+            cases_extra.append(dict(kind="stack_of_k_cannot_be_indexed", k=k, ok=False, detail=repr(e)[:300]))
     names = [n["name"] for n in cfg["nodes"]]
     subsets = [s for r in range(1, len(names) + 1) for s in itertools.combinations(names, r)]
     rng.shuffle(subsets)
